@@ -1,6 +1,8 @@
 //! n2check: property-based checks of evmar/n2 (see /verif/DESIGN.md).
 mod engine;
+mod paths;
 mod sim;
+mod syn;
 mod tape;
 mod util;
 
@@ -9,6 +11,9 @@ use std::path::PathBuf;
 
 fn make_check(id: &str) -> Option<Box<dyn Check>> {
     if let Some(c) = sim::props::sim_check(id) {
+        return Some(Box::new(c));
+    }
+    if let Some(c) = syn::checks::syn_check(id) {
         return Some(Box::new(c));
     }
     if id == "C07" {
